@@ -25,18 +25,21 @@ Kinds == << "load-result",         \* loadConfig succeeded/failed differently fr
             "handled-not-once",      \* an accepted connection was reported opened/closed other than exactly once
             "datagram-lost",         \* a datagram to a retained address was not processed
             "connection-unhandled",  \* an accepted connection on a retained address was never handled
-            "relay-interrupted" >>   \* a connection relaying before the reload did not run to completion
+            "relay-interrupted",     \* a connection relaying before the reload did not run to completion
+            \* process level (real binary, /metrics endpoint)
+            "client-exposed",        \* C20: the exposition contains the client's IP address or port
+            "process-panic" >>       \* C18: the process panicked or died
 NK == Len(Kinds)
 
-VARIABLES l, good, vio, nscen, nprobe, cfgAt
-tvars == <<l, good, vio, nscen, nprobe, cfgAt>>
+VARIABLES l, good, vio, nscen, nprobe, cfgAt, ndrift
+tvars == <<l, good, vio, nscen, nprobe, cfgAt, ndrift>>
 
 ToSet(s) == {s[i] : i \in 1..Len(s)}
 E == Trace[l]
 Is(e) == l <= Len(Trace) /\ E.ev = e /\ l' = l + 1
 Flag(kinds) == vio' = [k \in 1..NK |-> IF vio[k] = 0 /\ Kinds[k] \in kinds THEN l ELSE vio[k]]
 
-TInit == Init /\ l = 1 /\ good = NoCfg /\ vio = [k \in 1..NK |-> 0] /\ nscen = 0 /\ nprobe = 0 /\ cfgAt = <<>>
+TInit == Init /\ l = 1 /\ good = NoCfg /\ vio = [k \in 1..NK |-> 0] /\ nscen = 0 /\ nprobe = 0 /\ cfgAt = <<>> /\ ndrift = 0
 
 TrScenario == Is("Scenario") /\ good' = NoCfg /\ nscen' = nscen + 1 /\ cfgAt' = <<>> /\ UNCHANGED <<vio, nprobe>>
 
@@ -53,7 +56,7 @@ TrLoad == /\ Is("Load")
 TrProbe == /\ Is("Probe")
            /\ Flag((IF ToSet(E.serving) # Serving(good) THEN {"serving-mismatch"} ELSE {})
                    \cup (IF ToSet(E.listening) # ListeningOf(good) THEN {"listening-mismatch"} ELSE {})
-                   \cup (IF E.runners # (IF good = NoCfg THEN 0 ELSE 1) THEN {"leftover-runner"} ELSE {})
+                   \cup (IF E.runners >= 0 /\ E.runners # (IF good = NoCfg THEN 0 ELSE 1) THEN {"leftover-runner"} ELSE {})
                    \cup (IF Len(E.problems) > 0 THEN {"harness-problem"} ELSE {}))
            /\ nprobe' = nprobe + 1
            /\ UNCHANGED <<good, nscen, cfgAt>>
@@ -87,6 +90,19 @@ TrClient ==
           \cup (IF E.res = "error" THEN {"harness-problem"} ELSE {}))
   /\ nprobe' = nprobe + 1
   /\ UNCHANGED <<good, nscen, cfgAt>>
+\* process level: nothing exported may contain the client address (C20); the keys/ports gauges follow the loaded
+\* configuration (main.go:282: all configured keys, not de-duplicated; one port per listener) - a mismatch is drift
+RECURSIVE SumKs(_, _)
+SumKs(c, i) == IF i > Len(c.svcs) THEN 0 ELSE Len(c.svcs[i].ks) + SumKs(c, i + 1)
+NumKeys(c) == Len(c.legacy) + SumKs(c, 1)
+TrExposition == /\ Is("Exposition")
+                /\ Flag(IF Len(E.exposed) > 0 THEN {"client-exposed"} ELSE {})
+                /\ ndrift' = IF good # NoCfg /\ (E.keys # NumKeys(good) \/ E.ports # Cardinality(ListeningOf(good)))
+                              THEN ndrift + 1 ELSE ndrift
+                /\ UNCHANGED <<good, nscen, nprobe, cfgAt>>
+TrProcessEnd == /\ Is("ProcessEnd")
+                /\ Flag(IF E.panicked THEN {"process-panic"} ELSE {})
+                /\ UNCHANGED <<good, nscen, nprobe, cfgAt, ndrift>>
 TrRelay == /\ Is("Relay")
            /\ Flag(IF E.ok THEN {} ELSE IF E.setup THEN {"harness-problem"} ELSE {"relay-interrupted"})
            /\ nprobe' = nprobe + 1
@@ -98,10 +114,12 @@ TrForeignFailed == /\ Is("ForeignFailed")
                    /\ UNCHANGED <<good, nscen, nprobe, cfgAt>>
 TrProblem == /\ Is("HarnessProblem") /\ Flag({"harness-problem"}) /\ UNCHANGED <<good, nscen, nprobe, cfgAt>>
 
-TNext == (TrScenario \/ TrLoad \/ TrProbe \/ TrOther \/ TrProblem \/ TrForeignFailed
-          \/ TrLoadStart \/ TrLoadEnd \/ TrClient \/ TrRelay) /\ UNCHANGED vars
+TNextA == (TrScenario \/ TrLoad \/ TrProbe \/ TrOther \/ TrProblem \/ TrForeignFailed
+           \/ TrLoadStart \/ TrLoadEnd \/ TrClient \/ TrRelay) /\ UNCHANGED <<vars, ndrift>>
+TNextB == (TrExposition \/ TrProcessEnd) /\ UNCHANGED vars
+TNext == TNextA \/ TNextB
 TSpec == TInit /\ [][TNext]_<<tvars, vars>>
 
-Report == (l = Len(Trace) + 1) => PrintT(<<"RESULT", l - 1, nscen, nprobe, vio>>)
+Report == (l = Len(Trace) + 1) => PrintT(<<"RESULT", l - 1, nscen, nprobe, vio, ndrift>>)
 TraceAccepted == TLCGet("stats").diameter - 1 = Len(Trace)
 ===============================================================================
